@@ -156,9 +156,10 @@ for variant, (cls, has_prices, has_alpha, has_mu) in VARIANTS.items():
 # forecast_bisection_one_draw: partial correctness of the bracket
 # ---------------------------------------------------------------------------------------------
 MD = 'biogeme.mdcev.mdcev.Mdcev.'
-# m3 (mutation review): the two assumed callees RECORD what they were asked / what they answered in ghost fields of the
-# model (no real code reads them), so that the contract of the bisection can speak about the multiplier and the choice
-# set of the LAST call of optimal_consumption: the postcondition sees parameters and fields only, not locals.
+# m3 (mutation review): the postcondition of a contract sees parameters and fields only, not locals.  So that the contract of
+# the bisection can speak about the multiplier and the choice set of the LAST call of optimal_consumption, that assumed callee
+# RECORDS what it was asked and what it answered in ghost fields of the model (no real code reads them); the identification
+# step is a PURE assumed contract, i.e. a specification can name its answer (ID below).
 field_type('Mdcev', 'alternatives', 'set[int]')
 field_type('Mdcev', 'ghost_dual', 'float')
 field_type('Mdcev', 'ghost_set', 'set[int]')
@@ -250,4 +251,5 @@ n, bad = c18_forecast.run(draws=9, seed=0, brute=0)
 violated = bool(bad)
 detail = f'{n} native forecasts; first failure: {bad[0] if bad else None}'
 """,
-         note='bracket only: the two loop invariants; feasibility / KKT / optimality of the result are bounded (c18_forecast)')
+         note='bracket, bisection step, which call produced the result, completion with zeros; that the initial bracket contains the '
+              'multiplier of the optimum (identification) and feasibility / KKT / optimality of the result are bounded (c18_forecast)')
